@@ -288,6 +288,7 @@ type countingReader struct {
 	off   int
 	zeros int
 	reads int
+	one   bool // environment: every Read returns at most one byte (an io.Reader may legally do so)
 }
 
 func (c *countingReader) Read(p []byte) (int, error) {
@@ -298,6 +299,9 @@ func (c *countingReader) Read(p []byte) (int, error) {
 			panic(loopDetected{})
 		}
 		return 0, io.EOF
+	}
+	if c.one && len(p) > 1 {
+		p = p[:1]
 	}
 	n := copy(p, c.data[c.off:])
 	c.off += n
@@ -381,7 +385,7 @@ type outcome struct {
 var siteRe = regexp.MustCompile(`github\.com/unixpickle/model3d/[a-z0-9_]+\.(\(\*?[A-Za-z0-9_\[\].]+\)\.)?[A-Za-z0-9_]+`)
 var digitsRe = regexp.MustCompile(`[0-9]+`)
 
-func runEntry(e *entry, data []byte) (o outcome) {
+func runEntry(e *entry, data []byte, oneByte bool) (o outcome) {
 	done := make(chan outcome, 1)
 	go func() {
 		var res outcome
@@ -405,7 +409,7 @@ func runEntry(e *entry, data []byte) (o outcome) {
 					res = outcome{Kind: "panic", Msg: fmt.Sprint(x), Site: site}
 				}
 			}()
-			e.Run(&countingReader{data: data}, data)
+			e.Run(&countingReader{data: data, one: oneByte}, data)
 		}()
 		if res.Kind == "" {
 			if delta := allocBytes() - before; delta > allocBase+allocPerByte*uint64(len(data)) {
@@ -502,26 +506,35 @@ func worker(shard, nshards, start int, statePath string, thorough bool) {
 			binary.LittleEndian.PutUint64(buf[:8], uint64(idx))
 			binary.LittleEndian.PutUint64(buf[8:], uint64(ei))
 			sf.WriteAt(buf[:], 0)
-			o := runEntry(e, data)
-			st.Evals++
-			st.PerEntry[e.Name]++
-			if o.Kind != "" {
-				key := e.Name + "/" + o.Kind
-				if o.Kind == "panic" {
-					key += "/" + o.Site + "/" + msgClass(o.Kind, o.Msg)
-				}
-				h := data
-				if len(h) > 2048 {
-					h = h[:2048]
-				}
-				b, _ := json.Marshal(workerViol{key, fmt.Sprintf("%s on %s %s@%d alt %d: %s", e.Name, c.File, c.Kind, c.Pos, c.Alt, o.Msg), c, e.Name, hex.EncodeToString(h)})
-				fmt.Printf("@@V %s\n", b)
-				if o.Kind == "hang" {
-					st.Hung = true
-					b, _ := json.Marshal(st)
-					fmt.Printf("@@S %s\n", b)
-					fmt.Printf("@@H %d\n", idx)
-					os.Exit(3)
+			modes := []bool{false}
+			if thorough || c.Kind == "truncate" || c.Kind == "token" || c.Kind == "word" {
+				modes = append(modes, true) // the same faulty file delivered one byte per Read
+			}
+			for _, oneByte := range modes {
+				o := runEntry(e, data, oneByte)
+				st.Evals++
+				st.PerEntry[e.Name]++
+				if o.Kind != "" {
+					key := e.Name + "/" + o.Kind
+					if oneByte {
+						key = e.Name + "/short-reads/" + o.Kind
+					}
+					if o.Kind == "panic" {
+						key += "/" + o.Site + "/" + msgClass(o.Kind, o.Msg)
+					}
+					h := data
+					if len(h) > 2048 {
+						h = h[:2048]
+					}
+					b, _ := json.Marshal(workerViol{key, fmt.Sprintf("%s on %s %s@%d alt %d: %s", e.Name, c.File, c.Kind, c.Pos, c.Alt, o.Msg), c, e.Name, hex.EncodeToString(h)})
+					fmt.Printf("@@V %s\n", b)
+					if o.Kind == "hang" {
+						st.Hung = true
+						b, _ := json.Marshal(st)
+						fmt.Printf("@@S %s\n", b)
+						fmt.Printf("@@H %d\n", idx)
+						os.Exit(3)
+					}
 				}
 			}
 		}
@@ -570,10 +583,12 @@ func main() {
 		data, _ := hex.DecodeString(v.Hex)
 		for i := range entries {
 			if entries[i].Name == v.Entry {
-				o := runEntry(&entries[i], data)
-				fmt.Printf("replay %s: %+v\n", v.Entry, o)
-				if o.Kind != "" {
-					r.Violation(v.Entry+"/"+o.Kind, o.Msg, nil)
+				for _, oneByte := range []bool{false, true} {
+					o := runEntry(&entries[i], data, oneByte)
+					fmt.Printf("replay %s (one byte per Read: %v): %+v\n", v.Entry, oneByte, o)
+					if o.Kind != "" {
+						r.Violation(v.Entry+"/"+o.Kind, o.Msg, nil)
+					}
 				}
 			}
 		}
@@ -582,14 +597,14 @@ func main() {
 		r.Sample("replay")
 		r.Finish()
 	}
-	r.Rule("every prefix, every byte x {00,FF,80,'-','9',' ','\\n','e','.',bit-flip}, every numeric token x 16 boundary values, every 4-byte window x 8 patterns (binary files), every line deleted or duplicated, every header/text word x 41 keywords and type names, and in the thorough tier every pair of tokens x 8x8 values, of each of 15 minimal valid files (binary/ASCII STL, OFF, PLY ascii/little/big endian with lists and a zero-count element, segment CSV), fed to all 8 decoder entry points. " +
+	r.Rule("every prefix, every byte x {00,FF,80,'-','9',' ','\\n','e','.',bit-flip}, every numeric token x 16 boundary values, every 4-byte window x 8 patterns (binary files), every line deleted or duplicated, every header/text word x 41 keywords and type names, and in the thorough tier every pair of tokens x 8x8 values, of each of 15 minimal valid files (binary/ASCII STL, OFF, PLY ascii/little/big endian with lists and a zero-count element, segment CSV), fed to all 8 decoder entry points; truncations and token/word corruptions (thorough: every case) are delivered a second time through a reader that returns one byte per Read. " +
 		"non-trivial = mutated files whose header the format's reader still accepts, i.e. the fault landed in a field the decoder trusts; counted once per case")
 	r.Assume("allocation bound 1 MiB + 4 KiB per input byte (out of proportion = beyond any constant-factor expansion of the input); zero-progress bound 200 reads after end of input; 20 s watchdog per decoder call")
 	total := countCases(files, r.Thorough())
 	r.Set("cases", total)
 	r.Set("corpus_files", len(files))
 	nshards := 16
-	work := filepath.Join(ev.Root, ".work", "c16")
+	work := filepath.Join(ev.Work(), "c16")
 	os.MkdirAll(work, 0o755)
 	var mu sync.Mutex
 	agg := workerStats{PerEntry: map[string]int64{}}
